@@ -11,14 +11,16 @@ chk("C02",
     "Lean theorems over the kernels regenerated from the current source: the liquid residual equals pressure difference + lift + "
     "the documented Darcy-Weisbach/hydrostatic/lumped loss (all parameter values), the gas residual equals the integrated "
     "real-gas law of the documentation, mean-pressure formula and bounds, Reynolds number, laminar and Nikuradse factors "
-    "(liquid and gas forms), friction-loss column. Constants come from constants.py via the translator. The oracle re-evaluates "
+    "(liquid and gas forms), friction-loss column; over the translated gas post-processing (result_extraction.py) each end's norm "
+    "factor is p_N T K/(T_N p) with that end's own pressure and temperature for either flow direction. Constants come from constants.py via the translator. The oracle re-evaluates "
     "the law, v, Re, lambda and norm factors from res_* tables on generated nets for all three friction models.",
     "Colebrook and Swamee-Jain factors are checked by the oracle only (implicit / not in the documentation as a formula); "
-    "result extraction arithmetic (v, norm factors) is exercised by the oracle, not yet translated.",
+    "the liquid velocity line and the scatter into res_* rows are exercised by the oracle, not translated.",
     "Lean 4 proof over translated kernels; bitwise translator self-check; law-residual oracle search", "8/C02")
 chk("C07",
     "Lean theorems, for all real inputs, that each numpy kernel equals its numba twin (liquid and gas residuals/derivatives, "
-    "Nikuradse factors, mean pressure, derived values, thermal node and branch terms, flow tests), with the two genuine twin "
+    "Nikuradse factors, mean pressure, derived values, thermal node and branch terms, flow tests, gas post-processing: absolute / mean "
+    "pressures, norm factors, gas velocities of get_branch_results_gas vs its numba twin), with the two genuine twin "
     "differences stated exactly and proved confined to zero-flow Jacobian entries; both twins are regenerated from source on "
     "every run and compared bitwise / within 4 ulp with the python functions. The assembly model covers the matrix-update path. "
     "Oracle: engine pairs, update option (hydraulic and thermal), reuse_internal_data with edited loads.",
